@@ -1,14 +1,13 @@
 #!/bin/bash
-# merge_branch.sh <branch>: merge a builder branch, resolving the two files every builder touches
-b=$1
+# merge_branch.sh <branch> <Cxx>: merge a builder branch, resolving the files every builder touches
+b=$1; pid=$2
 cd /verif
 git merge $b >/dev/null 2>&1
-python3 - "$b" <<'PY'
+python3 - "$b" "$pid" <<'PY'
 import json, subprocess, sys, re
-b = sys.argv[1]
+b, pid = sys.argv[1], sys.argv[2]
 def show(ref, path):
     return subprocess.run(["git", "show", "%s:%s" % (ref, path)], capture_output=True, text=True).stdout
-# known_findings.json : union by id / string
 ours = json.loads(show("HEAD", "known_findings.json"))
 theirs = json.loads(show(b, "known_findings.json"))
 ids = {f["id"] for f in ours["findings"]}
@@ -19,15 +18,16 @@ for s in theirs.get("fixed", []):
     if s not in ours["fixed"]:
         ours["fixed"].append(s)
 json.dump(ours, open("known_findings.json", "w"), indent=1)
-# gen_manifest.py : keep both sides of every conflict
-p = "harness/gen_manifest.py"
+# manifest entry from their generator
+src = show(b, "harness/gen_manifest.py")
+ns = {"__file__": "/verif/harness/gen_manifest.py"}
+exec(compile(src.split("NOT_YET =")[0], "theirs", "exec"), ns)
+json.dump(ns["CLAIMED"][pid], open("harness/manifest/%s.json" % pid, "w"), indent=1)
+open("harness/gen_manifest.py", "w").write(show("HEAD", "harness/gen_manifest.py"))
+p = "coq/theories/Extract/Run.v"
 s = open(p).read()
-s = re.sub(r"<<<<<<< [^\n]*\n(.*?)=======\n(.*?)>>>>>>> [^\n]*\n", lambda m: m.group(1) + m.group(2), s, flags=re.S)
-open(p, "w").write(s)
-for p in ("coq/theories/Extract/Run.v",):
-    s = open(p).read()
-    if "<<<<<<<" in s:
-        s = re.sub(r"<<<<<<< [^\n]*\n(.*?)=======\n(.*?)>>>>>>> [^\n]*\n", lambda m: m.group(1) + m.group(2), s, flags=re.S)
-        open(p, "w").write(s)
+if "<<<<<<<" in s:
+    s = re.sub(r"<<<<<<< [^\n]*\n(.*?)=======\n(.*?)>>>>>>> [^\n]*\n", lambda m: m.group(1) + m.group(2), s, flags=re.S)
+    open(p, "w").write(s)
 PY
-git status --short | grep -E "^(UU|AA|U|.U)" ; python3 -c "import ast;ast.parse(open('/verif/harness/gen_manifest.py').read())" && python3 harness/gen_manifest.py && echo manifest-ok
+git checkout --ours MANIFEST.json coq/_CoqProject 2>/dev/null; python3 harness/gen_manifest.py && git add -A && git commit -q -m "merge $b" && echo "merged $b"; git status --short | head -5
